@@ -40,7 +40,7 @@ def numlex(tier, rng):
     import itertools as it
     short = [''.join(w) for k in range(2, 5) for w in it.product(NUM_ALPHA, repeat=k)]      # every word of 2..4 atoms, always
     longw = [''.join(w) for k in range(5, 7) for w in it.product(NUM_ALPHA, repeat=k)]
-    words = short + (longw if tier != 'quick' else rng.sample(longw, 300))
+    words = short + rng.sample(longw, 300 if tier == 'quick' else 12000)
     return [('%s%s\nOUTPUT "next line"\n' % (rng.choice(['OUTPUT ', 'x <- ']), w)).encode() for w in words]
 
 # every channel through which a numeral reaches a conversion, at and past the 64-bit / double boundaries
@@ -136,7 +136,7 @@ DATAFILES = [b'', b'INTEGER 5\n', b'STRING 3 abc\n', b'STRING abc x\n', b'STRING
 def generate(tier, rng):
     cases = []
     progs = corpus_programs()
-    n_mut = 250 if tier == 'quick' else 4000
+    n_mut = 250 if tier == 'quick' else 3000
     for _ in range(n_mut):
         src = mutate(rng, rng.choice(progs), progs)
         mode = 'file' if rng.random() < 0.75 else 'repl'
@@ -152,16 +152,16 @@ def generate(tier, rng):
         seqs = [(a,) for a in VOCAB] + list(itertools.product(VOCAB, VOCAB))
         seqs = [(a,) for a in VOCAB] + rng.sample(list(itertools.product(VOCAB, VOCAB)), 1500)
     else:
-        seqs = [(a,) for a in VOCAB] + list(itertools.product(VOCAB, VOCAB)) + rng.sample(list(itertools.product(VOCAB, VOCAB, VOCAB)), 60000)
+        seqs = [(a,) for a in VOCAB] + list(itertools.product(VOCAB, VOCAB)) + rng.sample(list(itertools.product(VOCAB, VOCAB, VOCAB)), 25000)
     for s in seqs:
         cases.append(Case((' '.join(s) + '\n').encode(), 'file', '', b'7\n', meta=dict(gen='token-seq-%d' % len(s), sample=False)))
-    for src in glued(rng, 600 if tier == 'quick' else 20000):
+    for src in glued(rng, 600 if tier == 'quick' else 8000):
         cases.append(Case(src, 'file', rng.choice(['', '', '-p']), b'7\n', meta=dict(gen='glued-atoms', sample=False)))
     for src, inp in boundary_programs():
         cases.append(Case(src.encode(), 'file', '', inp, meta=dict(gen='numeric-boundary', sample=False)))
     for src in numlex(tier, rng):
         cases.append(Case(src, 'file', '', b'7\n', meta=dict(gen='number-lexer', sample=False)))
-    for _ in range(150 if tier == 'quick' else 3000):
+    for _ in range(150 if tier == 'quick' else 2000):
         src = structured(rng)
         files = {'f.dat': rng.choice(DATAFILES)} if rng.random() < 0.4 else {}
         mode = 'file' if rng.random() < 0.7 else 'repl'
